@@ -224,6 +224,7 @@ void h_runlock (void) { setup (M_R); nsync_mu_runlock (&MU); vf_assert (g_mode =
 void h_unlock_nowake (void) { setup (M_W); writer_release_expect_clear = 0; nsync_mu_unlock_without_wakeup (&MU); vf_assert (g_mode == M_NONE && !g_spin); }
 static void mu_wait_body (unsigned k, int rd) {       /* C05: returns holding the mutex in the mode of entry; 0 exactly when the condition is true at return */
 	int r;
+	env_left = 2;                        /* at most 2 interfering changes of the word during this (long) call: keeps the query inside the quick budget */
 	setup (rd ? M_R : M_W);
 	cond_var = 0;
 	timed_wait = (k & 2) != 0;
@@ -236,6 +237,7 @@ static void mu_wait_body (unsigned k, int rd) {       /* C05: returns holding th
 }
 static void cv_wait_body (unsigned k, int rd) {       /* C05 + C04: mode of entry restored; a wait that consumed a wake-up reports 0 */
 	int r;
+	env_left = 2;
 	setup (rd ? M_R : M_W);
 	on_cv = 1;
 	writer_release_expect_clear = 0;
